@@ -1710,11 +1710,13 @@ class Problem(object, metaclass=ProblemMetaclass):
         if not approx:
             model._jacobian = old_jac
             model._owns_approx_jac = False
-            model._owns_approx_of = approx_of
-            model._owns_approx_wrt = approx_wrt
-            model._owns_approx_jac_meta = approx_jac_meta
             model._subjacs_info = old_subjacs
-            model._approx_schemes = old_schemes
+
+        # a model that approximates its own totals must get its own approximation settings back.
+        model._owns_approx_of = approx_of
+        model._owns_approx_wrt = approx_wrt
+        model._owns_approx_jac_meta = approx_jac_meta
+        model._approx_schemes = old_schemes
 
         # Assemble and Return all metrics.
         data = {'': {}}
